@@ -407,13 +407,29 @@ func init() {
 // upstreams, and checks it against the reference.  It returns the main
 // upstream that was consulted, or -1.
 func (w *c17World) query(a, b int, om, of string) (hit int, fs []vrt.Finding) {
-	env := w.env
-	for _, u := range env.mains {
+	for _, u := range w.env.mains {
 		u.queryOut = om
 	}
-	for _, u := range env.fbs {
+	for _, u := range w.env.fbs {
 		u.queryOut = of
 	}
+
+	return w.queryNow(a, b)
+}
+
+// queryNow is query with the outcomes the scripted upstreams currently have.
+func (w *c17World) queryNow(a, b int) (hit int, fs []vrt.Finding) {
+	env := w.env
+	var outs []string
+	for _, u := range env.mains {
+		outs = append(outs, u.queryOut)
+	}
+	om := strings.Join(outs, ",")
+	outs = outs[:0]
+	for _, u := range env.fbs {
+		outs = append(outs, u.queryOut)
+	}
+	of := strings.Join(outs, ",")
 	env.src.vals = []uint64{uint64(a), uint64(b)}
 	env.calls = env.calls[:0]
 	w.qid++
@@ -473,10 +489,10 @@ func (w *c17World) query(a, b int, om, of string) (hit int, fs []vrt.Finding) {
 
 			return hit, fs
 		}
-		switch {
-		case c17IsReply(om):
+		switch o := mainCalls[0].outcome; {
+		case c17IsReply(o):
 			mainClass = "reply"
-		case c17IsNetErr(om):
+		case c17IsNetErr(o):
 			mainClass = "neterr"
 		default:
 			mainClass = "othererr"
@@ -492,7 +508,7 @@ func (w *c17World) query(a, b int, om, of string) (hit int, fs []vrt.Finding) {
 	switch mainClass {
 	case "reply":
 		if len(fbCalls) > 0 {
-			bad("query/fallback-used-although-main-replied", "main replied %q", om)
+			bad("query/fallback-used-although-main-replied", "main replied %q", mainCalls[0].outcome)
 
 			return hit, fs
 		}
@@ -516,7 +532,7 @@ func (w *c17World) query(a, b int, om, of string) (hit int, fs []vrt.Finding) {
 
 	cls := "main:" + mainClass
 	if len(fbCalls) == 1 {
-		if c17IsReply(of) {
+		if c17IsReply(fbCalls[0].outcome) {
 			cls += ">fb:reply"
 		} else {
 			cls += ">fb:fail"
@@ -617,6 +633,30 @@ func (w *c17World) fanout(full bool) (fs []vrt.Finding) {
 			_, qfs := w.query(a, a, oo[0], oo[1])
 			if len(qfs) > 0 {
 				return qfs
+			}
+		}
+	}
+	// Every up/down pattern over the individual upstreams that is not uniform
+	// per role, with every pair of draws.
+	all := append(append([]*c17Ups{}, w.env.mains...), w.env.fbs...)
+	for bits := range 1 << len(all) {
+		uniform := true
+		for i, u := range all {
+			u.queryOut = c17OK
+			if bits>>i&1 == 1 {
+				u.queryOut = c17NetErr
+			}
+			uniform = uniform && (i == 0 || i == w.c.Mains || u.queryOut == all[i-1].queryOut)
+		}
+		if uniform {
+			continue
+		}
+		for a := range p {
+			for b := range p {
+				_, qfs := w.queryNow(a, b)
+				if len(qfs) > 0 {
+					return qfs
+				}
 			}
 		}
 	}
